@@ -12,3 +12,21 @@ CLAIMS["C03"] = (
     "hypotheses forced by the proof: savings >= 0, alpha >= 0, betas >= 0 and not in (0,1e-8); modelled not verified: Python glue (check_data, formatting, sorting of the two anomaly lists), built-in float savings (compared under tolerance), scipy chi2 in the intermediate family. The glue theorem composing penalise with runCapa is stated per branch, the composition itself is what the driver executes and the correspondence checks.",
     "3/C03",
 )
+CLAIMS["C07"] = (
+    "Lean 4 proofs about the interval-layout and greedy-selection models + exact model/code correspondence (full parameter grid for the layout, hash change scores for the selection)",
+    "Theorems seeded_intervals_wellformed (every admissible (length, step) schedule yields a non-empty list of intervals inside [0,n] with lengths in [minLen, min(maxLen,n)]) and sbs_threshold_monotone (picks for a higher threshold are a prefix of the picks for a lower one) in Skc/Props/C07.lean, for all n, schedules, score tables, thresholds; further theorems (argmax characterisation, support/coverage of the greedy loop) are added as the development grows - see the evidence file for the current list.",
+    "the float-computed schedule (geomspace/rounding) is checked for admissibility exhaustively on a grid (n<=40 quick, <=120 thorough), not proved; scores/argmax/greedy are tied by exact correspondence on tie-rich integer landscapes; an independent tie-tolerant oracle states the property directly.",
+    "3/C07",
+)
+CLAIMS["C08"] = (
+    "Lean 4 proofs about the moving-window models (score definition, `where` = maximal runs) + exact model/code correspondence with hash change scores + reversal check on built-in scores",
+    "Theorems mw_scores_def and where_exactly_maximal_runs ((a,b) in where(ind) iff [a,b) is a maximal run of True) in Skc/Props/C08.lean for all inputs; further theorems (peak-of-run, reversal) are added as the development grows - see the evidence file.",
+    "float scores of built-in change scores are compared under tolerance for the reversal clause and only where decision margins exist; the model is tied by exact correspondence on integer landscapes.",
+    "3/C08",
+)
+CLAIMS["C09"] = (
+    "Lean 4 proofs about the greedy anomaly selection model + exact model/code correspondence with hash local-anomaly scores",
+    "Theorem cbs_threshold_monotone in Skc/Props/C09.lean (all candidate sets, score tables, thresholds); further theorems (candidate enumeration, disjointness, support/coverage) are added as the development grows - see the evidence file.",
+    "candidate enumeration, per-candidate argmax and the greedy loop are tied to the code by exact correspondence (score table incl. both argmax columns, anomalies); an independent tie-tolerant oracle states the property directly.",
+    "3/C09",
+)
